@@ -60,7 +60,7 @@ structure RInv (h : Heap) (file : File) (ρ : Rho) (s : RSt) : Prop where
   lt : ∀ x n, ρ.lookup x = some n → n < s.heap.length
   inj : ∀ x x' n, ρ.lookup x = some n → ρ.lookup x' = some n → x = x'
   img : ∀ x n, ρ.lookup x = some n → ∃ ob r', h[x]? = some ob ∧ s.heap[n]? = some (ob.strip.withRef r') ∧ RefRel ρ ob.ref r'
-  memo : ∀ q n, s.memo.lookup q = some n → ∃ g, lookupGrp file.groups q = some g ∧ g.isArr = true ∧ ρ.lookup g.src = some n
+  memo : ∀ q n, s.memo.lookup q = some n → ∃ g, lookupGrp file.groups q = some g ∧ ρ.lookup g.src = some n
   reg : ∀ x n, ρ.lookup x = some n → Registers h x → ∀ q g, lookupGrp file.groups q = some g → g.isArr = true →
     g.src = x → s.memo.lookup q = some n
 
@@ -73,7 +73,7 @@ theorem RInv.empty (h : Heap) (file : File) : RInv h file [] {} where
 
 /-- `memo[name] = obj` for the array group of that name and the image of its object -/
 theorem RInv.set {h : Heap} {file : File} {ρ : Rho} {s : RSt} (inv : RInv h file ρ s) {q : Path} {g : Grp} {n : Nat}
-    (hl : lookupGrp file.groups q = some g) (ha : g.isArr = true) (hr : ρ.lookup g.src = some n) :
+    (hl : lookupGrp file.groups q = some g) (hr : ρ.lookup g.src = some n) :
     RInv h file ρ (s.set q n) where
   lt := inv.lt
   inj := inv.inj
@@ -86,7 +86,7 @@ theorem RInv.set {h : Heap} {file : File} {ρ : Rho} {s : RSt} (inv : RInv h fil
     · subst hqq
       simp only [if_true, Option.some.injEq] at hq
       subst hq
-      exact ⟨g, hl, ha, hr⟩
+      exact ⟨g, hl, hr⟩
     · simp only [hqq, if_false] at hq
       exact inv.memo q' n' hq
   reg := by
@@ -149,23 +149,23 @@ theorem RInv.alloc {h : Heap} {file : File} {ρ : Rho} {s : RSt} (fo : FileOK h 
   · intro q' n' hq
     rcases hmemo with hm | hm
     · rw [hm] at hq
-      obtain ⟨g', a1, a2, a3⟩ := inv.memo q' n' hq
-      exact ⟨g', a1, a2, hext _ _ a3⟩
+      obtain ⟨g', a1, a3⟩ := inv.memo q' n' hq
+      exact ⟨g', a1, hext _ _ a3⟩
     · rw [hm, lookup_cons_ite] at hq
       by_cases hqq : q' = q
       · simp only [hqq, if_true, Option.some.injEq] at hq
         subst hq
-        refine ⟨g, hqq ▸ hl, ha, ?_⟩
+        refine ⟨g, hqq ▸ hl, ?_⟩
         rw [hs, lookup_cons_ite]; simp
       · simp only [hqq, if_false] at hq
-        obtain ⟨g', a1, a2, a3⟩ := inv.memo q' n' hq
-        exact ⟨g', a1, a2, hext _ _ a3⟩
+        obtain ⟨g', a1, a3⟩ := inv.memo q' n' hq
+        exact ⟨g', a1, hext _ _ a3⟩
   · intro z n hz hregz q' g' hl' ha' hs'
     rw [lookup_cons_ite] at hz
     by_cases hzx : z = x
     · simp only [hzx, if_true, Option.some.injEq] at hz
       subst hz
-      have hqq : q' = q := path_of_src fo.names fo.nodup hl' hl ha' ha (by rw [hs', hs, hzx])
+      have hqq : q' = q := fo.uniq q' g' q g hl' hl ha' ha (by rw [hs', hs, hzx])
       obtain ⟨obz, hobz, hrz⟩ := hregz
       rw [hzx, hob] at hobz
       cases hobz
@@ -248,7 +248,7 @@ theorem readArr_spec (h : Heap) (file : File) (hh : HeapWF h) (fo : FileOK h fil
           simp only [readRef]
           cases hml : s.memo.lookup qy with
           | some m =>
-            obtain ⟨g'', h1, _, h3⟩ := inv.memo qy m hml
+            obtain ⟨g'', h1, h3⟩ := inv.memo qy m hml
             rw [hly] at h1
             cases h1
             rw [hsy] at h3
@@ -272,7 +272,7 @@ theorem readArr_spec (h : Heap) (file : File) (hh : HeapWF h) (fo : FileOK h fil
                 · exact absurd hx h0
                 · omega
                 · omega
-            refine ⟨some m, s1.set qy m, ρ1, ?_, inv1.set hly hay (by rw [hsy]; exact hlk1), hext1,
+            refine ⟨some m, s1.set qy m, ρ1, ?_, inv1.set hly (by rw [hsy]; exact hlk1), hext1,
               by rw [hry]; exact ⟨m, rfl, hlk1⟩, hxn1, ?_⟩
             · simp only [hrd]
             · intro z hz
